@@ -90,6 +90,8 @@ def build(case):
         opts.update(nt=300, ns=900, dtype_ids='uint16', clusters='curated', far_ids=0, raw='none', features='none')
     opts.update(dtype_amps=['float64', 'float32'][int(rng.integers(0, 2))],
                 dtype_templates=['float32', 'float32', 'float64'][int(rng.integers(0, 3))])
+    if case['seed'][2] % 3 == 0 and opts['shanks']:
+        opts.update(interleave=True, nc=[14, 20][case['seed'][2] % 2])        # two shanks whose sites alternate along one dense probe
     if case['seed'][2] % 5 == 2:
         opts['exact_amps'] = True        # every template has an exactly silent channel (on which another template of a merge may have signal)
     if rng.random() < 0.04:
@@ -167,6 +169,13 @@ def build(case):
         spec.tsv['cluster_group.tsv'] = 'cluster_id\tgroup\n' + ''.join('%d\tgood\n' % c for c in ids.tolist()[:3])
     if rng.random() < 0.4:
         spec.extra_files['temp_wh.dat'] = b'\x00' * 64
+    if case['seed'][2] % 4 == 2:
+        # an optional per-channel file that the export copies under its ALF name (channels.labels)
+        import io as _io
+        for fn_, arr_ in (('channel_labels.npy', np.arange(spec.n_channels, dtype=np.int32) % 3),):
+            bio_ = _io.BytesIO()
+            np.save(bio_, arr_)
+            spec.extra_files[fn_] = bio_.getvalue()
     if case['seed'][2] % 5 == 1:
         # other files of the session whose names begin like the sorter's temporary file: they stay
         spec.extra_files['temp_wheel_session.dat'] = b'\x01\x02' * 32
